@@ -75,7 +75,13 @@ func spacingExp(t *big.Float) int {
 	if E < ref.MinExp {
 		E = ref.MinExp
 	}
+	// The reference t carries a relative error far below 1e-100. Exactly at the seam (Cmax+1)/10 * 10^k - where
+	// the spacing changes by a factor of ten and which a true result can hit exactly, e.g. (2e-5)^110 = 2^110e-550 -
+	// an approximation that falls a hair below the seam would select the finer spacing although the neighbour
+	// above the true value is a whole coarse unit away. t is therefore placed by its value times (1 + 1e-100):
+	// within that relative distance below a seam the coarser spacing (the one on the seam and above) applies.
 	q := new(big.Float).SetPrec(ref.TransPrec).Quo(a, pow10F(E))
+	q.Mul(q, fGuardHi)
 	for q.Cmp(fCmaxP1) >= 0 {
 		q.Quo(q, fTen)
 		E++
